@@ -487,6 +487,11 @@ def check(an: Analysis) -> None:
         w = g.ordered(lambda n: n in s.stores, lambda n: n in s.pops)
         if w is not None:
             ob4.fail(fi, s.pops[0].ast, "eviction can run before the new entry was stored", CFG.show_path(w))
+        # once stored, an entry leaves the store only through expiry (found expired by a later lookup) or LRU eviction: nothing
+        # on a path from the store - normal or exceptional - removes it by key (by then the key may hold another caller's entry)
+        w = g.search(s.stores, lambda n: n in s.dels, skip_node=lambda n: n in s.lookups) if s.stores and s.dels else None
+        if w is not None:
+            ob4.fail(fi, w[-1].ast, "the entry stored on a miss is removed again by key (e.g. when the invocation fails): entries leave the store only by expiry or LRU eviction - the key may by then hold a newer entry that other callers are sharing", CFG.show_path(w))
 
     # ------------------------------------------------------------------ C12.5 expiry stamps
     ob = an.ob("C12.5", "K5+K11 situations", "what `self._next_expire_time()` yields at store time: monotonic() + expiration when an expiration is configured, None (never expires) otherwise - whether it is a closure chosen in __init__, a module-level function bound with partial, or a method reading a stored expiration; limit / function reach the cache object", ["helpers.caching._SyncCache.__init__", "helpers.caching._AsyncCache.__init__"])
